@@ -59,7 +59,7 @@ def tasks(tier, seed):
         seen.add(ident)
         for role in ROLES:
             text = model_for(ident, role)
-            if tier == "quick":
+            if tier == "quick" and ident not in INTERNAL[:14]:
                 bs = [backends[n % 3]]
                 n += 1
             else:
